@@ -313,6 +313,7 @@ type Summary struct {
 	NFiles, NTests                           int
 	Files, Tests                             []string
 	Removed                                  bool
+	Unknown                                  []string // lines no rule of this reader covers
 }
 
 var (
@@ -366,6 +367,9 @@ func parseSummary(out string) *Summary {
 				s.Tests = append(s.Tests, m[1])
 			}
 			continue
+		}
+		if strings.TrimSpace(line) != "" && !strings.HasPrefix(line, "To remove ") && !strings.Contains(line, "%!") {
+			s.Unknown = append(s.Unknown, line)
 		}
 	}
 	return s
@@ -562,6 +566,10 @@ func abstractRun(a *absCtx, r *ScenarioRun, drvDir string) ([]map[string]any, er
 			case "clean":
 				b, _ := base64.StdEncoding.DecodeString(e.Out)
 				sum := parseSummary(string(b))
+				if len(sum.Unknown) > 0 {
+					// Clean printed something this reader has no rule for: the summary cannot be judged
+					return nil, inconclusive("output of Clean not understood (scenario %s): %q", s.ID, sum.Unknown[0])
+				}
 				files := make([]string, len(sum.Files))
 				for i, f := range sum.Files {
 					files[i] = a.path(f)
